@@ -3,30 +3,34 @@
 Pipeline: TLC(CallShapeSpace) -> call-graph shapes x data shapes -> Go programs; TLC(ProgSpace) -> the C01 chains
 (with decorations) -> Go programs;  the REAL process (harness/cmd/crashrun: taint eager / on-demand / field-sensitive
 / use-escape-analysis, backtrace eager / on-demand, reachability (CLI form and pointer-based), defer, may-panic) on
-every program with recover(), a watchdog and a progress file;  TLC(Terminates) decides Returns / Covered over the
-recorded outcomes;  failures are attributed to known findings by their crash site (known_findings.d/C07.json), every
-other failure is a VIOLATION (real-code behaviour, reproduced on the single program).
+every program with recover(), a CPU-time watchdog that records all goroutine stacks, and a progress file;
+TLC(Terminates) decides Returns / Covered over the recorded outcomes;  failures are attributed to known findings by
+their crash site (known_findings.d/C07.json), every other failure is a VIOLATION (real-code behaviour, reproduced on
+the single program).
 
 Role A (never a verdict): spec/VisitorLive.tla -- the context-sensitive traversal with `seen` + lasso stop terminates on
-every call-graph shape of CallShapeSpace (liveness, <>Done); without the lasso stop TLC finds the diverging shapes.
+every call graph of CallShapeSpace's topologies (liveness); without the lasso stop TLC finds the diverging shapes.
 """
 import json
 import os
 import random
 import re
 
+import minigo
 import optlib
-import sem
 import semgen
 import vlib
 from vlib import Inconclusive
 
-ANALYSES = ["taint:t000", "taint:t010", "taint:t100", "taint:e00", "backtrace:b0", "backtrace:b1",
-            "reach", "reachptr", "defer", "maypanic"]
-REQUIRED = list(ANALYSES)
+# analyses run on whole modules (25 programs per process)
+MODULE_ANALYSES = ["taint:t000", "taint:t010", "taint:e00", "backtrace:b0", "backtrace:b1",
+                   "reach", "reachptr", "defer", "maypanic"]
+# the field-sensitive configuration is run program by program on a seeded sample (see design.d/C07.md: its visitor is
+# known to blow up, which would make every module-level run useless)
+SINGLE_ANALYSES = ["taint:t100"]
 POOL = 4
 BATCH = 25
-TIMEOUT = 120
+SOFT = 10          # CPU seconds: a run that exceeds it is a suspect (stacks recorded)
 
 CONFIG_TMPL = """options:
   log-level: 1
@@ -71,35 +75,34 @@ class Prog:
         self.kind, self.name, self.mod, self.dir, self.desc = kind, name, mod, d, desc
         self.outs = {}      # analysis -> outcome
         self.detail = {}    # analysis -> text (stack, stderr)
+        self.req = []       # analyses that must have an outcome
+        self.entry = None
 
 
 # ------------------------------------------------------------------------------------------------ crash signatures
-FRAME = re.compile(r"^(github\.com/awslabs/ar-go-tools/[^\s(]+(?:\([^)]*\))?[^\s(]*)\(")
-
-
 def frames_of(text):
-    """[(function, file, line)] of the frames inside ar-go-tools, innermost first (both recovered-panic stacks and
-    the runtime's crash reports have the same two-line frame format)"""
+    """[(function, file, line)] of the frames inside ar-go-tools, innermost first (recovered-panic stacks, the
+    runtime's crash reports and runtime.Stack dumps share the two-line frame format)"""
     out = []
     lines = text.split("\n")
     for i, l in enumerate(lines):
-        m = re.match(r"^(github\.com/awslabs/ar-go-tools/\S+?)\((?:0x|\.\.\.|\)|\{)", l)
-        if not m:
-            m = re.match(r"^(github\.com/awslabs/ar-go-tools/.+?)\(", l)
-        if not m or i + 1 >= len(lines):
+        if not l.startswith("github.com/awslabs/ar-go-tools/") or i + 1 >= len(lines):
             continue
         fm = re.match(r"^\s+(\S+\.go):(\d+)", lines[i + 1])
         if not fm:
             continue
-        fn = m.group(1).replace("github.com/awslabs/ar-go-tools/", "")
+        k = l.rfind("(")
+        fn = l[:k] if k > 0 else l
+        fn = fn.replace("github.com/awslabs/ar-go-tools/", "")
         fn = re.sub(r"^(analysis|internal)/", "", fn)
         out.append((fn, fm.group(1), int(fm.group(2))))
     return out
 
 
 def site_text(path, line):
-    """source text of the line + the enclosing `case` label of the type switch it sits in (stable under line shifts)"""
-    path = path.replace("/repo/", vlib.REPO.rstrip("/") + "/") if path.startswith("/repo/") and vlib.REPO != "/repo" else path
+    """source text of the line + the enclosing `case` label of the switch it sits in (stable under line shifts)"""
+    if path.startswith("/repo/") and vlib.REPO != "/repo":
+        path = vlib.REPO.rstrip("/") + path[len("/repo"):]
     try:
         src = open(path).read().split("\n")
     except OSError:
@@ -124,7 +127,7 @@ def signature(text):
     """message class + the three innermost ar-go-tools frames, each with its source text and enclosing case label"""
     first = text.strip().split("\n", 1)[0][:200]
     first = re.sub(r"0x[0-9a-f]+", "0x?", first)
-    first = re.sub(r"\b[tp]\d+\b", "?", first)
+    first = re.sub(r"\b[tpsk]\d+\b", "?", first)
     first = re.sub(r"\d+", "N", first)
     parts = []
     for fn, f, ln in frames_of(text)[:3]:
@@ -144,16 +147,20 @@ def timeout_signature(stack):
             for fn in fr:
                 if not out or out[-1] != fn:
                     out.append(fn)
-            return "timeout | " + " > ".join(out[:6])
+            return "timeout | " + " > ".join(out[:5])
     return "timeout | (no main goroutine in the dump)"
 
 
-def known_for(ctx, kf, analysis, sig):
+def sig_of(o, det):
+    return timeout_signature(det) if o == "timeout" else signature(det)
+
+
+def known_for(kf, analysis, sig):
     for e in kf:
         if e.get("status") != "known":
             continue
         m = e.get("match", {})
-        if m.get("analysis_kind") and not analysis.startswith(m["analysis_kind"]):
+        if m.get("analysis") and analysis not in m["analysis"]:
             continue
         if all(s in sig for s in m.get("signature_contains", ["\0"])):
             return e
@@ -177,43 +184,33 @@ def outcome_of(res, a):
         return "timeout", res["timeout_stack"]
     if res["running"] == a:
         if res["killed"]:
-            return "timeout", "process killed by the outer timeout"
+            return "timeout", "process killed by the outer wall-clock timeout\n" + res["stderr"]
         return "fatal", res["stderr"]
     return None, ""
 
 
-def run_set(ctx, bins, mod, plist, analyses, tag):
-    out = os.path.join(mod, "crash-%s.ndjson" % tag)
-    pattern = "./..." if plist is None else ",".join("./" + p.name for p in plist)
-    return optlib.crashrun(bins, mod, pattern, analyses, out, timeout=TIMEOUT)
+class Runner:
+    def __init__(self, ctx, bins, hard):
+        self.ctx, self.bins, self.hard = ctx, bins, hard
+        self.runs = 0
+        self.combination_only = []
+        self.seq = 0
 
-
-def analyse_module(ctx, bins, mod, plist, stats):
-    """fills p.outs for every program of the module; bisects failing analyses down to single programs"""
-    res = run_set(ctx, bins, mod, None, ANALYSES, "all")
-    stats["runs"] += 1
-    if res["load"] is None or res["load"]["err"]:
-        raise Inconclusive("crashrun could not load generated module %s: %s %s" % (
-            mod, (res["load"] or {}).get("err"), res["stderr"][-1500:]))
-    if res["load"]["n"] != len(plist):
-        raise Inconclusive("crashrun loaded %d packages, expected %d in %s" % (res["load"]["n"], len(plist), mod))
-    pending = []
-    for a in ANALYSES:
-        o, det = outcome_of(res, a)
-        if o in ("result", "error"):
-            for p in plist:
-                p.outs[a] = o
-        else:
-            pending.append(a)     # failed, or not run because the process died before
-    seq = [0]
-
-    def bisect(sub, analyses):
-        """analyses: those that failed / were not run on a superset of sub"""
-        seq[0] += 1
-        r = run_set(ctx, bins, mod, sub, analyses, "b%d" % seq[0])
-        stats["runs"] += 1
+    def run_set(self, mod, plist, analyses, bound):
+        self.seq += 1
+        out = os.path.join(mod, "crash-%d.ndjson" % self.seq)
+        pattern = "./..." if plist is None else ",".join("./" + p.name for p in plist)
+        self.runs += 1
+        r = optlib.crashrun(self.bins, mod, pattern, analyses, out, timeout=bound)
         if r["load"] is None or r["load"]["err"]:
-            raise Inconclusive("crashrun could not load %s of %s: %s" % ([p.name for p in sub], mod, r["stderr"][-1500:]))
+            raise Inconclusive("crashrun could not load %s of generated module %s: %s %s" % (
+                pattern[:200], mod, (r["load"] or {}).get("err"), r["stderr"][-1500:]))
+        return r
+
+    def split(self, mod, sub, analyses, whole=None):
+        """run `analyses` on the programs `sub` of one module; narrow failures down to single programs
+        (25 -> 5 groups of 5 -> singles).  whole = result already obtained for `sub`."""
+        r = whole or self.run_set(mod, sub, analyses, self.hard)
         failed, notrun = [], []
         for a in analyses:
             o, det = outcome_of(r, a)
@@ -229,23 +226,45 @@ def analyse_module(ctx, bins, mod, plist, stats):
                 sub[0].outs[a] = o
                 sub[0].detail[a] = det
             if notrun and len(notrun) < len(analyses):
-                bisect(sub, notrun)
+                self.split(mod, sub, notrun)
             elif notrun:
                 raise Inconclusive("crashrun ran nothing on %s: %s" % (sub[0].dir, r["stderr"][-1500:]))
             return
         need = [a for a, _, _ in failed] + notrun
         if not need:
             return
-        h = len(sub) // 2
-        bisect(sub[:h], need)
-        bisect(sub[h:], need)
-        # a failure of the whole that no part reproduces: attribute to the set
-        for a, o, det in failed:
+        step = 5 if len(sub) > 5 else 1
+        for i in range(0, len(sub), step):
+            self.split(mod, sub[i:i + step], need)
+        for a, o, det in failed:   # a failure of the whole that no part reproduces: attributed to the set
             if all(p.outs.get(a) in ("result", "error") for p in sub):
-                stats["combination_only"].append((mod, [p.name for p in sub], a, o, det[:3000]))
+                self.combination_only.append((mod, [p.name for p in sub], a, o, det[:6000]))
 
-    if pending:
-        bisect(list(plist), pending)
+    def module(self, mod, plist):
+        r = self.run_set(mod, None, MODULE_ANALYSES, self.hard)
+        if r["load"]["n"] != len(plist):
+            raise Inconclusive("crashrun loaded %d packages, expected %d in %s" % (r["load"]["n"], len(plist), mod))
+        self.split(mod, list(plist), MODULE_ANALYSES, whole=r)
+
+    def single(self, p, a):
+        """one program, one analysis, soft bound; sets p.outs[a] to an outcome or to "suspect" (exceeded the soft bound)"""
+        r = self.run_set(p.mod, [p], [a], SOFT)
+        o, det = outcome_of(r, a)
+        if o is None:
+            raise Inconclusive("crashrun ran nothing on %s" % p.dir)
+        if o == "timeout":
+            o = "suspect"
+        p.outs[a] = o
+        p.detail[a] = det
+
+    def confirm(self, p, a):
+        """re-run a suspect with the hard bound"""
+        r = self.run_set(p.mod, [p], [a], self.hard)
+        o, det = outcome_of(r, a)
+        if o is None:
+            raise Inconclusive("crashrun ran nothing on %s" % p.dir)
+        p.outs[a] = o
+        p.detail[a] = det if o not in ("result", "error") else ""
 
 
 def run(ctx):
@@ -253,6 +272,8 @@ def run(ctx):
     rnd = random.Random(ctx.seed)
     bins = ctx.build(["crashrun"])
     kf = ctx.kf or local_known()
+    HARD = 120 if thorough else 60      # CPU seconds per analysis run (median of a module of 25 programs: < 3 s)
+    rn = Runner(ctx, bins, HARD)
 
     # ---- 1. call-graph shapes from TLC ----------------------------------------------------------------------
     def shapes_run(tag, maxf, maxe, maxns, maxsh, names, simulate=None):
@@ -271,119 +292,146 @@ def run(ctx):
 
     ALL = ["recstruct", "reciface", "generic", "bodyless", "deferloop", "goto", "empty", "switch"]
     shapes = {}
-    # exhaustive: every topology over <= 3 functions with at most one non-static edge, no data shape
-    for rec in shapes_run("topo", 3, 4, 1, 0, []):
+    # exhaustive: every topology over <= 3 functions with at most one (thorough: two) non-static edges
+    for rec in shapes_run("topo", 3, 4 if thorough else 3, 2 if thorough else 1, 0, []):
         shapes[optlib.shape_key(rec)] = rec
-    # exhaustive: every data shape x every topology over <= 2 functions (quick: <= 1 non-static edge)
-    for rec in shapes_run("data", 2, 3, 2 if thorough else 1, 1, ALL):
+    # exhaustive: every data shape x every topology over <= 2 functions
+    for rec in shapes_run("data", 2, 3 if thorough else 2, 1, 1, ALL):
         shapes[optlib.shape_key(rec)] = rec
     nexh = len(shapes)
-    if thorough:
-        for rec in shapes_run("topo2", 3, 4, 2, 0, []):
-            shapes[optlib.shape_key(rec)] = rec
-        nexh = len(shapes)
-    # seeded simulation of the big space (all edges of any kind, two shapes)
-    sim = shapes_run("sim", 3, 5, 5, 2, ALL, simulate=4000 if thorough else 400)
-    sim = sorted({optlib.shape_key(r): r for r in sim if optlib.shape_key(r) not in shapes}.items())
-    rnd.shuffle(sim)
-    sim = sim[: (1500 if thorough else 120)]
-    for k, rec in sim:
-        shapes[k] = rec
-    shape_list = [shapes[k] for k in sorted(shapes)]
     if nexh < 100:
         raise Inconclusive("CallShapeSpace produced only %d shapes" % nexh)
+    # seeded simulation of the big space (edges of any kind, two shapes)
+    sim = shapes_run("sim", 3, 5, 5, 2, ALL, simulate=2000 if thorough else 200)
+    sim = sorted({optlib.shape_key(r): r for r in sim if optlib.shape_key(r) not in shapes}.items())
+    rnd.shuffle(sim)
+    sim = sim[: (1500 if thorough else 100)]
+    for k, rec in sim:
+        shapes[k] = rec
+    # similar programs next to each other: failures cluster in few modules
+    shape_list = sorted(shapes.values(), key=lambda r: (sorted({e["k"] for e in r["edges"]} & {"closure", "defer", "go"}),
+                                                        sorted(r["shapes"]), optlib.shape_key(r)))
 
     # ---- 2. the C01 program space (chains with decorations) -------------------------------------------------
     from checks import c01
     chains, simchains, nchexh = c01.chains_for(ctx, thorough)
-    chain_items = [list(c) for c in chains] + [list(c) for c in simchains]
+    one = [list(c) for c in chains if len(c) == 1]
+    two = [list(c) for c in chains if len(c) == 2]
+    rest = [list(c) for c in chains if len(c) > 2] + [list(c) for c in simchains]
+    if not thorough:
+        # quick: every chain of one decorated step, a seeded sample of the two-step chains, the simulated ones
+        rnd.shuffle(two)
+        two = two[:250]
+    else:
+        rnd.shuffle(rest)
+        rest = rest[:1500]
+    chain_items = sorted(one + two + rest, key=lambda c: (sorted({s for s, _ in c} & CLOSURE_STEPS), c))
     pinned = []
     for e in kf:
         pth = e.get("pinned_input")
         if pth and os.path.exists(os.path.join(vlib.VERIF, pth)):
-            j = json.load(open(os.path.join(vlib.VERIF, pth)))
-            pinned.append((e, j))
-    if not thorough:
-        # quick: every chain of one decorated step, a seeded third of the two-step chains, the simulated ones
-        one = [c for c in chain_items if len(c) == 1]
-        two = [c for c in chain_items if len(c) == 2]
-        rest = [c for c in chain_items if len(c) > 2]
-        rnd.shuffle(two)
-        chain_items = one + two[: max(200, len(two) // 3)] + rest
+            pinned.append((e, json.load(open(os.path.join(vlib.VERIF, pth)))))
 
     only = os.environ.get("VERIF_C07_ONLY", "")      # development knob: shapes | chains | pinned
     if only == "shapes":
-        chain_items = []
+        chain_items = chain_items[:5]
     elif only == "chains":
-        shape_list = shape_list[:120]
+        shape_list = shape_list[:50]
     elif only == "pinned":
-        chain_items, shape_list = chain_items[:5], shape_list[:120]
+        chain_items, shape_list = chain_items[:5], shape_list[:50]
 
     # ---- 3. render --------------------------------------------------------------------------------------------
-    progs = []
+    progs, pin_progs = [], []
     mods = {}
     root = os.path.join(ctx.work, "c07")
     os.makedirs(root)
+    nmod = [0]
 
-    def new_mod(i):
-        mod = os.path.join(root, "m%04d" % i)
+    def new_mod():
+        mod = os.path.join(root, "m%04d" % nmod[0])
+        nmod[0] += 1
         os.makedirs(mod, exist_ok=True)
         with open(os.path.join(mod, "go.mod"), "w") as fh:
             fh.write("module prog\n\ngo 1.22\n")
         write_configs(mod)
+        mods[mod] = []
         return mod
 
-    nmod = 0
-    pin_progs = []
-    # pinned inputs of the known findings: a module of their own
-    if pinned:
-        mod = new_mod(nmod); nmod += 1
-        for n, (e, j) in enumerate(pinned):
-            name = "k%03d" % n
-            d = os.path.join(mod, name)
-            if "chain" in j:
-                P = semgen.build_chain([tuple(x) for x in j["chain"]], name=name)
-                import minigo
-                minigo.write_program(d, P)
-                desc = {"chain": j["chain"]}
-            else:
-                src, extra = optlib.render_shape(j["shape"])
-                optlib.write_plain_program(d, src, extra)
-                desc = {"shape": j["shape"]}
-            p = Prog("pinned", name, mod, d, desc)
-            p.entry = e
-            pin_progs.append(p)
-            mods.setdefault(mod, []).append(p)
+    def add(kind, name, mod, desc):
+        d = os.path.join(mod, name)
+        if "chain" in desc:
+            P = semgen.build_chain([tuple(x) for x in desc["chain"]], name=name)
+            minigo.write_program(d, P)
+        else:
+            src, extra = optlib.render_shape(desc["shape"])
+            optlib.write_plain_program(d, src, extra)
+        p = Prog(kind, name, mod, d, desc)
+        mods[mod].append(p)
+        return p
+
+    for n, (e, j) in enumerate(pinned):   # pinned inputs of the known findings: one program per module
+        p = add("pinned", "k%03d" % n, new_mod(), {"chain": j["chain"]} if "chain" in j else {"shape": j["shape"]})
+        p.entry = e
+        p.req = list(e.get("match", {}).get("analysis") or MODULE_ANALYSES)
+        pin_progs.append(p)
     for i, rec in enumerate(shape_list):
         if i % BATCH == 0:
-            mod = new_mod(nmod); nmod += 1
-        name = "s%05d" % i
-        d = os.path.join(mod, name)
-        src, extra = optlib.render_shape(rec)
-        optlib.write_plain_program(d, src, extra)
-        p = Prog("shape", name, mod, d, {"shape": rec})
-        progs.append(p); mods.setdefault(mod, []).append(p)
-    import minigo
+            mod = new_mod()
+        progs.append(add("shape", "s%05d" % i, mod, {"shape": rec}))
     for i, ch in enumerate(chain_items):
         if i % BATCH == 0:
-            mod = new_mod(nmod); nmod += 1
-        name = "p%05d" % i
-        d = os.path.join(mod, name)
-        P = semgen.build_chain([tuple(x) for x in ch], name=name)
-        minigo.write_program(d, P)
-        p = Prog("chain", name, mod, d, {"chain": [list(x) for x in ch]})
-        progs.append(p); mods.setdefault(mod, []).append(p)
+            mod = new_mod()
+        progs.append(add("chain", "p%05d" % i, mod, {"chain": [list(x) for x in ch]}))
+    for p in progs:
+        p.req = list(MODULE_ANALYSES)
+    # field-sensitive runs: a seeded sample of the programs
+    fs = list(progs)
+    rnd.shuffle(fs)
+    fs = fs[: (800 if thorough else 120)]
+    for p in fs:
+        p.req = p.req + SINGLE_ANALYSES
 
     # ---- 4. the real process ----------------------------------------------------------------------------------
-    stats = {"runs": 0, "combination_only": []}
-    vlib.pmap(lambda m: analyse_module(ctx, bins, m, mods[m], stats), sorted(mods), nproc=POOL)
-    ctx.traces += sum(len(p.outs) for p in progs + pin_progs)
+    def do_mod(m):
+        plist = mods[m]
+        if plist and plist[0].kind == "pinned":
+            for p in plist:
+                for a in p.req:
+                    if a in SINGLE_ANALYSES:
+                        rn.single(p, a)
+                mas = [a for a in p.req if a not in SINGLE_ANALYSES]
+                if mas:
+                    rn.split(m, [p], mas)
+        else:
+            rn.module(m, plist)
+    vlib.pmap(do_mod, sorted(mods), nproc=POOL)
+    vlib.pmap(lambda p: [rn.single(p, a) for a in SINGLE_ANALYSES], fs, nproc=POOL)
+
+    # suspects (exceeded the soft bound): those whose stack matches a known finding are confirmed by three
+    # representatives per entry (pinned inputs first); every other suspect is confirmed with the hard bound
+    allp = pin_progs + progs
+    suspects = [(p, a) for p in allp for a in sorted(p.outs) if p.outs[a] == "suspect"]
+    to_confirm, reps = [], {}
+    for p, a in suspects:
+        e = known_for(kf, a, timeout_signature(p.detail[a]))
+        if e is None:
+            to_confirm.append((p, a))
+        else:
+            reps.setdefault(e["id"], [])
+            if len(reps[e["id"]]) < 3:
+                reps[e["id"]].append((p, a))
+                to_confirm.append((p, a))
+    vlib.pmap(lambda pa: rn.confirm(*pa), to_confirm, nproc=POOL)
+    nsuspect_attr = 0
+    for p, a in suspects:
+        if p.outs[a] == "suspect":      # attributed to a known finding by its stack, not confirmed individually
+            p.outs[a] = "timeout"
+            nsuspect_attr += 1
+    ctx.traces += sum(len(p.outs) for p in allp)
 
     # ---- 5. TLC decides Returns / Covered over the recorded outcomes -----------------------------------------
-    allp = pin_progs + progs
-    recs = [{"prog": p.name, "outs": [{"a": a, "o": o} for a, o in sorted(p.outs.items())]} for p in allp]
-    r = ctx.tlc_must_pass("Terminates", data={"outcomes.ndjson": vlib.ndjson(recs),
-                                              "required.ndjson": vlib.ndjson([{"analyses": REQUIRED}])},
+    recs = [{"prog": p.name, "req": p.req, "outs": [{"a": a, "o": o} for a, o in sorted(p.outs.items())]} for p in allp]
+    r = ctx.tlc_must_pass("Terminates", data={"outcomes.ndjson": vlib.ndjson(recs)},
                           subdir="terminates", timeout=1200, deadlock=False)
     fp = os.path.join(r.dir, "terminates_fail.ndjson")
     if "TERMINATES_RESULT" not in r.out or not os.path.exists(fp):
@@ -394,53 +442,34 @@ def run(ctx):
     if missing:
         raise Inconclusive("no outcome recorded for %d (program, analysis) pairs, e.g. %s" % (len(missing), missing[0]))
 
-    # ---- 6. Role A: liveness of the traversal model on the same shapes (never a verdict) ----------------------
+    # ---- 6. Role A: liveness of the traversal model on the same topologies (never a verdict) ------------------
     role_a = role_a_model(ctx, thorough)
 
     # ---- 7. verdicts ------------------------------------------------------------------------------------------
     def files_of(p):
-        fs = {}
+        fs_ = {}
         for fn in sorted(os.listdir(p.dir)):
             if fn.endswith((".go", ".s")) and fn != "roles_native.go":
-                fs[fn] = open(os.path.join(p.dir, fn)).read()
-        fs["input.json"] = json.dumps(p.desc, indent=1)
-        return fs
+                fs_[fn] = open(os.path.join(p.dir, fn)).read()
+        fs_["input.json"] = json.dumps(p.desc, indent=1)
+        return fs_
 
-    seen_known = {}
-    clusters = {}
+    seen_known, clusters = {}, {}
     for f in fails:
         p = byname[f["prog"]]
         det = p.detail.get(f["a"], "")
-        sig = signature(det) if f["o"] in ("panic", "fatal") else "timeout"
-        e = known_for(ctx, kf, f["a"], sig) if f["o"] != "timeout" else None
+        sig = sig_of(f["o"], det)
+        e = known_for(kf, f["a"], sig)
         if e:
             seen_known.setdefault(e["id"], []).append((p, f["a"]))
-            continue
-        if p.kind == "pinned":
-            # a pinned input failing in a way its entry does not describe
-            pass
-        clusters.setdefault((f["a"].split(":")[0], f["o"], sig), []).append((p, f["a"], det))
-    # timeouts must reproduce (a generous bound under heavy load is still a wall-clock bound)
-    for key in list(clusters):
-        if key[1] != "timeout":
-            continue
-        keep = []
-        for p, a, det in clusters[key][:3]:
-            r2 = run_set(ctx, bins, p.mod, [p], [a], "retry-" + p.name + a.replace(":", "_"))
-            o, det2 = outcome_of(r2, a)
-            if o == "timeout":
-                keep.append((p, a, det))
-        if keep:
-            clusters[key] = keep
         else:
-            del clusters[key]
-            ctx.extra.setdefault("timeouts_not_reproduced", 0)
-            ctx.extra["timeouts_not_reproduced"] += 1
+            clusters.setdefault((f["a"].split(":")[0], f["o"], sig), []).append((p, f["a"], det))
     for e in kf:
         if e.get("status") == "known" and e["id"] in seen_known:
             hits = seen_known[e["id"]]
             ex = next((p for p, a in hits if p.kind == "pinned"), hits[0][0])
-            ctx.known(e["id"], "%s (%d programs, e.g. %s)" % (e["what"], len({p.name for p, _ in hits}), json.dumps(ex.desc)[:300]))
+            ctx.known(e["id"], "%s (%d programs, e.g. %s)" % (e["what"], len({p.name for p, _ in hits}),
+                                                              json.dumps(ex.desc)[:300]))
         if e.get("status") == "fixed":
             for p in pin_progs:
                 if p.entry is e and any(o not in ("result", "error") for o in p.outs.values()):
@@ -453,63 +482,76 @@ def run(ctx):
             break
         p, a, det = items[0]
         what = {"panic": "panics", "fatal": "kills the process (fatal error / panic in a worker goroutine)",
-                "timeout": "does not return within %d s (reproduced)" % TIMEOUT}[o]
-        fs = files_of(p)
-        fs["crash.txt"] = det
-        fs["others.json"] = json.dumps([{"prog": q.desc, "analysis": b} for q, b, _ in items[1:30]], indent=1)
+                "timeout": "does not return within %d CPU seconds (confirmed on the single program; the median of a "
+                           "whole module of 25 programs is < 3 s)" % HARD}[o]
+        fs_ = files_of(p)
+        fs_["crash.txt"] = det
+        fs_["others.json"] = json.dumps([{"prog": q.desc, "analysis": b} for q, b, _ in items[1:30]], indent=1)
         ctx.violation("analysis %s %s on the well-typed generated program %s (%d programs with this crash site): %s" % (
-            a, what, json.dumps(p.desc)[:400], len({q.name for q, _, _ in items}), sig[:600]), fs,
+            a, what, json.dumps(p.desc)[:400], len({q.name for q, _, _ in items}), sig[:700]), fs_,
             key="C07/%s/%s" % (akind, sig))
-    for mod, names, a, o, det in stats["combination_only"][:5]:
-        e = known_for(ctx, kf, a, signature(det))
-        if e:
+    for mod, names, a, o, det in rn.combination_only[:5]:
+        sig = sig_of(o, det)
+        if known_for(kf, a, sig):
             continue
         ctx.violation("analysis %s fails (%s) on the module of programs %s although it returns on every part: %s" % (
-            a, o, names, signature(det)[:400]), {"crash.txt": det, "module.txt": mod}, key="C07/combo/" + signature(det))
+            a, o, names, sig[:400]), {"crash.txt": det, "module.txt": mod}, key="C07/combo/" + sig)
 
-    nfail = len({f["prog"] for f in fails})
     outs = {}
     for p in allp:
         for a, o in p.outs.items():
-            outs.setdefault(a.split(":")[0], {}).setdefault(o, 0)
-            outs[a.split(":")[0]][o] += 1
-    ctx.sample({"shape": shape_list[len(shape_list) // 2],
-                "main.go": open(os.path.join([p for p in progs if p.kind == "shape"][len(shape_list) // 2].dir, "main.go")).read()[-1500:]})
-    ctx.sample({"chain": chain_items[len(chain_items) // 2]})
+            outs.setdefault(a, {}).setdefault(o, 0)
+            outs[a][o] += 1
+    sp = [p for p in progs if p.kind == "shape"]
+    cp = [p for p in progs if p.kind == "chain"]
+    if sp:
+        q = sp[len(sp) // 2]
+        ctx.sample({"shape": q.desc["shape"], "main.go": open(os.path.join(q.dir, "main.go")).read()[-1500:], "outcomes": q.outs})
+    if cp:
+        q = cp[len(cp) // 2]
+        ctx.sample({"chain": q.desc["chain"], "outcomes": q.outs})
     ctx.extra.update({
-        "programs": len(allp), "shape_programs": len(shape_list), "shapes_exhaustive": nexh, "shapes_simulated": len(sim),
-        "chain_programs": len(chain_items), "chains_exhaustive_space": nchexh, "pinned_inputs": len(pin_progs),
-        "analyses_per_program": len(ANALYSES), "process_runs": stats["runs"], "outcomes": outs,
-        "programs_with_a_failure": nfail, "crash_clusters_unknown": len(clusters),
-        "known_clusters": {k: len({p.name for p, _ in v}) for k, v in seen_known.items()}, "role_a_model": role_a,
+        "programs": len(allp), "shape_programs": len(sp), "shapes_exhaustive": nexh, "shapes_simulated": len(sim),
+        "chain_programs": len(cp), "chains_exhaustive_space": nchexh, "pinned_inputs": len(pin_progs),
+        "field_sensitive_sample": len(fs), "process_runs": rn.runs, "outcomes": outs,
+        "programs_with_a_failure": len({f["prog"] for f in fails}), "crash_clusters_unknown": len(clusters),
+        "known_clusters": {k: len({p.name for p, _ in v}) for k, v in seen_known.items()},
+        "suspects_attributed_by_stack_only": nsuspect_attr, "cpu_bound_s": HARD, "soft_bound_s": SOFT,
+        "role_a_model": role_a,
     })
     ctx.assumptions += [
-        "programs are analysed in modules of %d independent main packages; a failing analysis is bisected down to the "
+        "programs are analysed in modules of %d independent main packages; a failing analysis is narrowed down to the "
         "single program (every subset of the packages is itself a valid input)" % BATCH,
-        "bound: %d s per analysis per module where the median is < 2 s; a timeout is reported only when it reproduces on "
-        "the single program" % TIMEOUT,
+        "bound: %d CPU seconds of the analysing process per analysis run (a module of 25 programs needs < 3 s); CPU time, "
+        "not wall clock, so that machine load cannot produce a timeout" % HARD,
+        "field-sensitive taint analysis (known to blow up) is run program by program on a seeded sample with a %d s soft "
+        "bound; suspects whose stack matches a known finding are confirmed with the full bound by 3 representatives "
+        "per finding, all other suspects individually" % SOFT,
         "the generated programs are well-typed: the loader type-checks and compiles them (load error = exit 2)",
     ]
-    ctx.finish_args = dict(exhaustive=True, evaluations=len(allp) * len(ANALYSES), distinct=len(allp),
-                           rule="one case = one generated program x 10 analysis runs; shapes: all CallShapeSpace states "
-                                "within the bounds + seeded simulation; chains: ProgSpace K<=2 with decorations + simulation")
+    ctx.finish_args = dict(exhaustive=True, evaluations=sum(len(p.outs) for p in allp), distinct=len(allp),
+                           rule="one case = one generated program x the analysis runs; shapes: all CallShapeSpace states "
+                                "within the bounds + seeded simulation; chains: ProgSpace with decorations + simulation")
+
+
+CLOSURE_STEPS = {"capread", "callclo", "capwrite", "cloparam", "retclo", "deferclo", "defernamed", "methodval"}
 
 
 # ------------------------------------------------------------------------------------------------ Role A
 def role_a_model(ctx, thorough):
-    """VisitorLive.tla: the context-sensitive traversal terminates on every shape (with the lasso stop) -- liveness
-    under weak fairness, exhaustive over the call graphs of <= MaxF functions; result recorded, never a verdict"""
+    """VisitorLive.tla: the context-sensitive traversal terminates on every call graph (with the lasso stop) -- liveness,
+    exhaustive over the call graphs of <= MaxF functions; recorded in the evidence, never a verdict"""
     if not os.path.exists(os.path.join(vlib.SPEC, "VisitorLive.tla")):
         return {"skipped": "no model"}
     out = {}
     for name, lasso in (("lasso", "TRUE"), ("nolasso", "FALSE")):
-        cfg = ("SPECIFICATION Spec\nCONSTANTS MaxF = %d\n Lasso = %s\n MaxDepth = %d\nPROPERTY Terminates\n"
-               "INVARIANT DepthBounded\nCHECK_DEADLOCK FALSE\n" % (3 if thorough else 2, lasso, 6))
+        cfg = ("SPECIFICATION Spec\nCONSTANTS MaxF = %d\n Lasso = %s\n Cap = %d\nPROPERTY Terminates\n"
+               "CHECK_DEADLOCK FALSE\n" % (3 if thorough else 2, lasso, 6))
         try:
             r = ctx.tlc("VisitorLive", cfg="VL_%s.cfg" % name, data={"VL_%s.cfg" % name: cfg}, subdir="rolea-" + name,
                         timeout=600, deadlock=False)
         except Inconclusive as e:
             out[name] = {"error": str(e)[:200]}
             continue
-        out[name] = {"ok": r.ok, "violated": r.violated, "distinct": r.distinct}
+        out[name] = {"holds": r.ok, "violated": r.violated, "distinct": r.distinct}
     return out
